@@ -54,7 +54,7 @@ class TrackMachine(ohist.Machine):
         return {R.T_DATA3D: gen.data3d, R.T_FORCE3D: gen.force3d}.get(self.t, lambda n, x: gen.emg(n, []))(self.n, [])
 
     def element(self, kind, k=0):
-        """kind: good | long | short | zero | none | str | array | alien"""
+        """kind: good | long | short | zero | regrown | none | str | array | alien | alien_sibling | alien_block"""
         t, n = self.t, self.n
         if kind == "good":
             return specs.build_item(t, good_track(t, n, k), self.base())
@@ -89,6 +89,17 @@ class TrackMachine(ohist.Machine):
         if kind == "alien":
             other = R.T_EMG if t != R.T_EMG else R.T_DATA3D
             return specs.build_item(other, good_track(other, n, k), {"format": 1})
+        if kind == "alien_sibling":
+            # the nearest relative: same frame count, same attribute names, other class
+            if t == R.T_EMG:
+                return self.block()                      # an EMG block has nSamples and nBytes like a signal
+            other = R.T_FORCE3D if t == R.T_DATA3D else R.T_DATA3D
+            return specs.build_item(other, good_track(other, n, k), {"format": 1})
+        if kind == "alien_block":
+            b = self.block()                             # a whole block of this kind: nFrames == n, has nBytes, iterable
+            if t != R.T_EMG:
+                self.add(b, specs.build_item(t, good_track(t, n, k), self.base()))
+            return b
         raise ValueError(kind)
 
     def _other_block(self):
@@ -137,7 +148,7 @@ class TrackMachine(ohist.Machine):
         out = []
         if len(model) < MAXTRACKS:
             out.append(("add", "good"))
-        kinds_bad = ["long", "short", "zero", "regrown", "none", "str", "array", "alien"]
+        kinds_bad = ["long", "short", "zero", "regrown", "none", "str", "array", "alien", "alien_sibling", "alien_block"]
         if self.n - 1 == 0:
             kinds_bad.remove("short")
         out += [("add", k) for k in kinds_bad]
@@ -343,7 +354,77 @@ class TrackMachine(ohist.Machine):
         return len(model) >= 1
 
 
+BIG_N = 200_000
+
+
+def _big_shard(t):
+    """The same refusals on a long block (a length comparison with a relative tolerance, or in a narrow
+    integer / float type, only goes wrong when the numbers are large): n = 200 000, off by one either way."""
+    acc = core.Acc()
+    m = TrackMachine(t, BIG_N)
+    n = BIG_N
+
+    def tr(length, k):
+        if t == R.T_DATA3D:
+            sp = {"label": f"t{k}", "data": gen.filler((length, 3), k)}
+        elif t == R.T_FORCE3D:
+            sp = {"label": f"t{k}", "ap": gen.filler((length, 3), k), "force": gen.filler((length, 3), k + 7), "torque": gen.filler((length, 3), k + 13)}
+        else:
+            sp = {"label": f"t{k}", "data": gen.filler((length,), k)}
+        return specs.build_item(t, sp, m.base())
+
+    def labels(b):
+        return [x.label for x in b]
+
+    b = m.block()
+    steps = [("add", n + 1), ("add", n - 1), ("add", n)]
+    if t != R.T_EMG:
+        steps += [("assign", (n, n + 1)), ("assign", (n - 1,)), ("assign", (n + 1, n)), ("assign", (n, n)), ("assign", (n, n - 1, n))]
+    k = 0
+    for what, arg in steps:
+        before = labels(b)
+        acc.n["states"] += 1
+        acc.n["evaluations"] += 1
+        acc.n["nontrivial"] += 1
+        acc.n["transitions"] += 1
+        wit = {"big": True, "type": t, "step": [what, list(arg) if isinstance(arg, tuple) else arg]}
+        lens = [arg] if what == "add" else list(arg)
+        items = []
+        for L in lens:
+            k += 1
+            items.append(tr(L, k))
+        valid = all(L == n for L in lens)
+        err = None
+        try:
+            if what == "add":
+                m.add(b, items[0])
+            else:
+                b.tracks = items
+        except Exception as e:  # noqa: BLE001
+            err = e
+        after = labels(b)
+        desc = f"{R.NAMES[t]} block of {n} frames, {what} of lengths {lens}"
+        sizes = [int(getattr(x, "nFrames", getattr(x, "nSamples", -1))) for x in b]
+        if any(z != n for z in sizes):
+            acc.violation("wrong-length-track-inside", f"{PROP}:{R.NAMES[t]}:big:wrong-length-inside:{what}", wit, f"{desc}: block now holds lengths {sizes}")
+        elif not valid and err is None:
+            acc.violation("wrong-element-accepted", f"{PROP}:{R.NAMES[t]}:big:accepted:{what}", wit, f"{desc}: accepted")
+        elif not valid and after != before:
+            acc.violation("refused-request-changed-block", f"{PROP}:{R.NAMES[t]}:big:changed:{what}", wit, f"{desc}: refused, block {before} -> {after}")
+        elif valid and err is not None:
+            acc.violation("valid-request-refused", f"{PROP}:{R.NAMES[t]}:big:refused:{what}", wit, f"{desc}: {type(err).__name__}: {err}")
+        elif valid and after != (before + [x.label for x in items] if what == "add" else [x.label for x in items]):
+            acc.violation("valid-request-wrong-result", f"{PROP}:{R.NAMES[t]}:big:result:{what}", wit, f"{desc}: block {before} -> {after}")
+        else:
+            acc.outcomes[f"big:{R.NAMES[t]}:{what}:{'installed' if valid else 'refused'}"] += 1
+            acc.n["traces"] += 1
+    acc.sample({"big": f"{R.NAMES[t]} block of {n} frames: add / assign with lengths n-1, n, n+1"}, 1)
+    return acc
+
+
 def _shard(shard):
+    if shard[0] == "big":
+        return _big_shard(shard[1])
     t, n = shard
     acc = core.Acc()
     m = TrackMachine(t, n)
@@ -353,8 +434,15 @@ def _shard(shard):
 
 def run(tier):
     _shard.tier = tier
-    return core.pmap(__name__, "_shard", [(t, n) for t in (R.T_DATA3D, R.T_FORCE3D, R.T_EMG) for n in (1, 3)])
+    kinds = (R.T_DATA3D, R.T_FORCE3D, R.T_EMG)
+    return core.pmap(__name__, "_shard", [("big", t) for t in kinds] + [(t, n) for t in kinds for n in (1, 3)])
 
 
 def replay(w):
+    if w.get("big"):
+        acc = _big_shard(w["type"])
+        for v in acc.violations:
+            if v["witness"]["step"] == w["step"]:
+                return core.Violation(v["clause"], v["sig"], w, v["detail"])
+        return None
     return ohist.run_witness(TrackMachine(w["type"], w["n"]), w)
